@@ -17,6 +17,13 @@ OUTSIDE = "include paths other than plain relative names; more than 3 included f
 ASSUMPTIONS = ["M8: SourceFile.read_assembly_contents is served from an in-memory map (the real file system only in replays)"]
 
 
+def _fname(prefix, k):
+    """prefix '@same': every included file has the same base name in a different directory (a/inc.asm, b/inc.asm ...)"""
+    if prefix == "@same":
+        return "%s/inc.asm" % "abcdefgh"[k]
+    return prefix + "inc%d.asm" % k
+
+
 def split_program(body, cuts, nest, prefix="", spell="INCLUDE"):
     """cuts: sorted statement indices [c1<c2<...] ; segments between consecutive cuts become included files.
     nest: if True, each included file includes the next one at its end (depth grows) instead of the main file doing so."""
@@ -35,7 +42,7 @@ def split_program(body, cuts, nest, prefix="", spell="INCLUDE"):
             if seg_main:
                 main += seg
             else:
-                name = prefix + "inc%d.asm" % k
+                name = _fname(prefix, k)
                 files[name] = seg
                 main.append(("", spell, name))
                 k += 1
@@ -44,11 +51,11 @@ def split_program(body, cuts, nest, prefix="", spell="INCLUDE"):
     else:
         # main = [0,c1) + INCLUDE inc0 + tail after last cut ; inc_i = segment i + INCLUDE inc_{i+1}
         bounds = list(cuts)
-        main = list(body[:bounds[0]]) + [("", "INCLUDE", prefix + "inc0.asm")]
+        main = list(body[:bounds[0]]) + [("", "INCLUDE", _fname(prefix, 0))]
         nested_spell = spell
         segs = [body[a:b] for a, b in zip(bounds, bounds[1:] + [len(body)])]
         for i, seg in enumerate(segs):
-            files[prefix + "inc%d.asm" % i] = list(seg) + ([("", nested_spell, prefix + "inc%d.asm" % (i + 1))] if i + 1 < len(segs) else [])
+            files[_fname(prefix, i)] = list(seg) + ([("", nested_spell, _fname(prefix, i + 1))] if i + 1 < len(segs) else [])
     return main, files
 
 
@@ -138,6 +145,8 @@ def obligations(tier, seed):
         obs.append(make(pname, sorted(rnd.sample(range(1, n), 3)), True, prefix="../shared/"))   # parent-relative path
         obs.append(make(pname, sorted(rnd.sample(range(1, n), 2)), False, prefix="."))            # dot files (.inc0.asm)
         obs.append(make(pname, sorted(rnd.sample(range(1, n), 2)), True, prefix="./"))
+        obs.append(make(pname, sorted(rnd.sample(range(1, n), 3)), True, prefix="@same"))         # a/inc.asm -> b/inc.asm -> c/inc.asm
+        obs.append(make(pname, sorted(rnd.sample(range(1, n), 4)), False, prefix="@same"))
         obs.append(make(pname, sorted(rnd.sample(range(1, n), 3)), True, spell="include"))        # lower-case nested includes
         obs.append(make(pname, sorted(rnd.sample(range(1, n), 4)), True, spell="Include"))
         # statements that end or restart something, placed so that they fall INSIDE an included file
